@@ -97,6 +97,10 @@ def extract(configs=('default', 'nofeat', 'rel'), repo=None, cache=True, quiet=F
     try:
         d = os.path.join(CACHE, key)
         os.makedirs(d, exist_ok=True)
+        try:
+            os.utime(d, None)      # a directory in use is a recent directory: pruning leaves those alone
+        except OSError:
+            pass
         need = [c for c in configs if not (cache and os.path.exists(os.path.join(d, c + '.json')))]
         if need:
             t0 = time.time()
@@ -155,7 +159,10 @@ def _prune(keep, limit=int(os.environ.get('QLINT_CACHE_LIMIT', '8'))):
         if os.path.isdir(p) and n != keep and len(n) == 24:
             ds.append((os.path.getmtime(p), p))
     ds.sort(reverse=True)
-    for _, p in ds[limit:]:
+    now = time.time()
+    for mt, p in ds[limit:]:
+        if now - mt < 1800:
+            continue      # possibly being read by a concurrent run (the self-test runners analyse many trees in parallel)
         shutil.rmtree(p, ignore_errors=True)
 
 
